@@ -137,8 +137,28 @@ Definition inlines_md (o : opts) (l : list inline) : string := sconcat (map (inl
 Definition is_paragraph (b : gblock) : bool :=
   match b with GPlain _ | GPara _ => true | _ => false end.
 
+(* model/graph.rs:65-84 GraphBlock::absorbs: [next] written on the line right after [b] would be read
+   as a part of it - a rule or a table under text (the rule as a setext underline, the table as more
+   text), a quote or a table under a quote, a table under a list or under a table *)
+Definition absorbs (b next : gblock) : bool :=
+  match b, next with
+  | (GPlain (_ :: _) | GPara (_ :: _)), (GRule | GTable _ _ _) => true
+  | GQuote _, (GQuote _ | GTable _ _ _) => true
+  | (GBList _ | GOList _ | GTable _ _ _), GTable _ _ _ => true
+  | _, _ => false
+  end.
+
+(* `item.windows(2).any(|pair| pair[0].absorbs(&pair[1]))` *)
+Fixpoint has_absorbed (item : list gblock) : bool :=
+  match item with
+  | a :: ((b :: _) as r) => absorbs a b || has_absorbed r
+  | _ => false
+  end.
+
+(* model/graph.rs:53-63 GraphBlock::is_sparce_list: some item holds two paragraphs, or two blocks in a
+   row that cannot be written on consecutive lines *)
 Definition is_sparse (items : list (list gblock)) : bool :=
-  existsb (fun item => Nat.ltb 1 (length (filter is_paragraph item))) items.
+  existsb (fun item => Nat.ltb 1 (length (filter is_paragraph item)) || has_absorbed item) items.
 
 Definition left_pad_and_prefix (text : string) : string :=
   sconcat (map (fun nl => let '(n, line) := nl in
@@ -166,7 +186,7 @@ Fixpoint block_md (o : opts) (tables : list string) (b : gblock) {struct b} : st
     | x :: r => let '(s, tb1) := block_md o tb x in
                 let '(s', tb2) := go sep tb1 r in (s +++ sep +++ s', tb2)
     end in
-  (* model/graph.rs:569-590 item_to_markdown + the list arms of to_markdown (105-119): an item whose first block is a
+  (* model/graph.rs:590-611 item_to_markdown + the list arms of to_markdown (126-140): an item whose first block is a
      paragraph without text is written from its second block on (a rule right after the marker in
      asterisks: dashes there would read as a rule of their own); items that come out empty are
      not written and take no number; the rest is joined *)
